@@ -97,13 +97,14 @@ var valueMethodReq = map[string]KindSet{
 	"Float":       ksFloat,
 	"Bool":        ks(kBool),
 	"Complex":     ks(kComplex64, kComplex128),
-	"Bytes":       ks(kSlice, kArray),
+	"Bytes":       0, // a slice of bytes or an *addressable* array of bytes: neither element type nor addressability is tracked, so never discharged
 	"IsNil":       ks(kChan, kFunc, kInterface, kMap, kPtr, kSlice, kUnsafePointer),
 	"NumField":    ks(kStruct),
 	"Field":       ks(kStruct),
 	"Slice":       ks(kArray, kSlice, kString),
 	// valid receiver required ("panics if v is the zero Value")
 	"Type":            ksValid,
+	"CanInterface":    ksValid, // "panics if v is the zero Value" (flag == 0)
 	"Interface":       ksValid,
 	"Convert":         ksValid,
 	"CanConvert":      ksValid,
@@ -125,7 +126,7 @@ var valueMethodReq = map[string]KindSet{
 }
 
 // reflect.Value methods that never panic on any receiver.
-var valueMethodSafe = map[string]bool{"Kind": true, "IsValid": true, "String": true, "CanInterface": true, "CanSet": true, "CanAddr": true, "CanInt": true,
+var valueMethodSafe = map[string]bool{"Kind": true, "IsValid": true, "String": true, "CanSet": true, "CanAddr": true, "CanInt": true,
 	"CanUint": true, "CanFloat": true, "CanComplex": true}
 
 // reflect.Type methods with a kind precondition ("It panics if the type's Kind is not …").
